@@ -342,6 +342,15 @@ static void camp_DEEP(Ctx& ctx) {
   ctx.campaign_exhaustive["DEEP"] = true;
   ctx.notes["DEEP"] = "nests of tags / one-element definite arrays / indefinite maps (value position) / tags around a chunked string, built through the API at depths 2, 17, L/2, L-1 and L = CBOR_MAX_STACK_SIZE";
 }
+static void camp_WIDE(Ctx& ctx) {
+  Case c; c.campaign = "DEC"; uint64_t idx = 0;
+  for (auto& x : gen::wide_items(ctx.prop != "C07")) {   // C07 sweeps every buffer size: skip the 64 KiB strings there
+    if (!ctx.mine(idx++) || ctx.stop()) continue;
+    if (ctx.prop == "C07" && x.size() > 1200) continue;
+    c.data = x; for (uint64_t v = 0; v < (ctx.prop == "C11" ? 2u : 1u); v++) { c.aux[0] = v; ctx.exec(c); }
+  }
+  ctx.notes["WIDE"] = "decoder-made trees with 22..1000 members / string lengths around every head-width boundary (see gen::wide_items)";
+}
 static void camp_ENCN(Ctx& ctx) {
   Case c; c.campaign = "ENCN"; uint64_t idx = 0;
   std::vector<uint64_t> vals = {0, 1, 23, 24, 25, 255, 256, 65535, 65536, 0x7fffffffull, 0x80000000ull, 0xffffffffull, 0x100000000ull, 1ull << 63, ~0ull,
@@ -358,6 +367,7 @@ static void run_campaigns(Ctx& ctx) {
   auto want = [&](const char* n) { return ctx.campaign_filter.empty() || ctx.campaign_filter == n; };
   if (ctx.prop == "C07" && want("ENCN")) camp_ENCN(ctx);
   if (want("DEEP")) camp_DEEP(ctx);
+  if (want("WIDE")) camp_WIDE(ctx);
   if (want("DEC")) camp_DEC(ctx, thorough ? 3 : 2);
   if (want("PROG")) camp_PROG(ctx, thorough ? 6000000 : 600000);
 }
